@@ -408,6 +408,29 @@ theorem sequence_fold_partial (σ : Srv) (cs : List (Json × Json)) (hc : σ.has
       rw [← hl]; exact h2
     · simp only [List.map_cons, List.foldl_cons, ← hset]; exact hfold
 
+/-- **sequence_fold, from a fresh server.** `initialize` with options `opts` from a client
+    that announces `workspace.configuration`, then any number of changes handled in order: the
+    settings are the fold of `parseSettingsFromRaw` over `opts` and the pulled payloads,
+    starting from the defaults. -/
+theorem sequence_fold_from_init_partial (opts : Json) (cs : List (Json × Json)) :
+    ∃ σ', run (newServer true) (.init (some ⟨some true, opts⟩) :: serialEvents 0 cs) = .ok σ' ∧
+      σ'.settings = (opts :: cs.map (·.2)).foldl parseSettingsFromRaw (normalize defaults) := by
+  obtain ⟨σ₁, caps, h1, hset, _, hcfg⟩ := initialize_effect (newServer true) ⟨some true, opts⟩
+  have hσ : step (newServer true) (.init (some ⟨some true, opts⟩)) = .ok σ₁ := by
+    simp only [step, h1, Except.map]
+  have htasks : σ₁.tasks.length = 0 := by
+    simp only [initializeSrv, Except.ok.injEq, Prod.mk.injEq] at h1
+    rw [← h1.1]; rfl
+  have hcl : σ₁.hasClient = true := by
+    simp only [initializeSrv, Except.ok.injEq, Prod.mk.injEq] at h1
+    rw [← h1.1]; rfl
+  obtain ⟨σ₂, h2, hfold⟩ := sequence_fold_partial σ₁ cs hcl (by simpa using hcfg)
+  refine ⟨σ₂, ?_, ?_⟩
+  · simp only [run, hσ]
+    rw [← htasks]; exact h2
+  · simp only [List.foldl_cons]
+    rw [hfold, hset]; rfl
+
 /-- non-vacuity: a server after `initialize` with the capability announced satisfies the
     hypotheses, and two changes do fold -/
 example : ∃ σ', run (newServer true)
